@@ -21,8 +21,10 @@ export CARGO_NET_OFFLINE=true
 r_apply=1; r_tests=""; r_demo_with=""; r_demo_without=""
 if git apply $S/patch.diff; then r_apply=0; fi
 tests=$(cargo test --offline 2>&1 | grep -E "^test result" | head -1)
+cargo build --offline >/dev/null 2>&1     # some demos expect target/debug/p2sh to exist already
 bash $demo > /tmp/seeddemo_$id.with.log 2>&1; r_demo_with=$?
 git checkout -q -- . ; git clean -fdq -e target
+cargo build --offline >/dev/null 2>&1
 bash $demo > /tmp/seeddemo_$id.without.log 2>&1; r_demo_without=$?
 python3 - "$id" "$r_apply" "$tests" "$r_demo_with" "$r_demo_without" <<'PY'
 import json,sys
